@@ -604,6 +604,55 @@ def reject_reason(step):
     return '%d:%s' % (st, code or '-')
 
 
+def c04_concurrent(req, resp, own, wit, res, final):
+    """concurrent form of the first clause: the NET effect of all the commits
+    made by a rejected request (first value before its first change of a key
+    vs value after its last change of that key) is empty.  Only its own
+    commits are looked at, so what other requests did in between is not
+    attributed to it."""
+    if req['method'] in READ_METHODS or resp.status < 400 or \
+            resp.status >= 500:
+        return
+    step = Step(req, resp, None, None)
+    res.count('concurrent_rejected_judged')
+    first, last = {}, {}
+    for before, after in own:
+        ca, cb = before.core(), after.core()
+        for sect in ca:
+            va, vb = ca[sect], cb[sect]
+            if va == vb:
+                continue
+            if not isinstance(va, dict):
+                va = {k: True for k in va}
+                vb = {k: True for k in vb}
+            for k in set(va) | set(vb):
+                if va.get(k) != vb.get(k):
+                    first.setdefault((sect, k), va.get(k))
+                    last[(sect, k)] = vb.get(k)
+    if own:
+        res.count('concurrent_rejected_with_commits')
+    net = sorted('%s[%s]: %r -> %r' % (sk[0], sk[1], first[sk], last[sk])
+                 for sk in first if first[sk] != last[sk])
+    reason = reject_reason(step)
+    res.seen('conc-reject', step.rname(), reason, len(own))
+    if net:
+        kinds = sorted({c.split('[')[0] for c in net})
+        changed = [sk for sk in first if first[sk] != last[sk]]
+        held = {c for (c, _, _) in final.allocs}
+        if all(sk[0] == 'consumers' and first[sk] is None and sk[1] in held
+               for sk in changed):
+            # (D22) the consumer record this request auto-created was taken
+            # over by another writer before this request failed: it cannot
+            # be removed any more
+            kinds = ['auto-created-consumer-adopted-by-other-writer']
+        res.violation(
+            'C04|rejected-write-left-trace|%s|%s|%s' % (
+                step.rname(), reason, ','.join(kinds)),
+            '%s rejected (%d, %s) under concurrency but its own commits '
+            'changed: %s' % (step.rname(), resp.status, reason, net[:8]),
+            dict(wit, net_effect=net[:20]))
+
+
 def c04(step, res):
     before, after = step.before, step.after
     rn = step.rname()
